@@ -42,6 +42,16 @@ class IntRange(T):
         return f'IntRange({self.lo},{self.hi})'
 
 
+class BytesN(T):
+    """byte string of concrete length n with symbolic content (n fresh bytes 0..255)"""
+
+    def __init__(self, n):
+        self.n = n
+
+    def __repr__(self):
+        return f'BytesN({self.n})'
+
+
 class OneOf(T):
     def __init__(self, *values):
         self.values = list(values)
@@ -288,6 +298,14 @@ def uf(name, *args):
     """application of the pure function `name` (symbolically an uninterpreted function:
     only determinism is known; natively the registered real function)"""
     return NATIVE_UF[name](*args)
+
+
+def ufb(name, n, *args):
+    """bytes-valued application of the pure function `name`, result of length n (symbolically an
+    uninterpreted function into byte strings of that length; natively the registered real function)"""
+    r = NATIVE_UF[name](*args)
+    assert len(r) == n
+    return r
 
 
 def fresh_int():
